@@ -285,3 +285,29 @@ def rewrite_for_slice(body, counts):
                f"{{ let {m.group(1)} = &{arr}[{i}]; {inner} {i} += 1; }};")
         body = body[:m.start()] + new + body[bc + 1:]
         counts['R4'] = counts.get('R4', 0) + 1
+
+
+def rewrite_rev_range(body, counts, invariants):
+    """R3: `for i in (A..B).rev() { S }`  ->  `let mut i = B; while i > A <invariant> { i -= 1; S }`  (semantics of Rev<Range>).
+    invariants: list of invariant texts by ordinal (may use the loop variable)."""
+    k = 0
+    while True:
+        src = Source(body)
+        m = None
+        for mm in re.finditer(r'\bfor\s+([A-Za-z_]\w*)\s+in\s+\((\w+)\.\.(\w+)\)\.rev\(\)\s*\{', body):
+            if src.mask[mm.start()]:
+                m = mm
+                break
+        if not m:
+            if k != len(invariants):
+                raise AnchorLost(f"reverse-range loop count changed: {k} in code, {len(invariants)} specified")
+            return body
+        if k >= len(invariants):
+            raise AnchorLost("more reverse-range loops than specified")
+        bo = m.end() - 1
+        bc = src.match_close(bo)
+        v, a, b = m.group(1), m.group(2), m.group(3)
+        new = f"let mut {v} = {b}; while {v} > {a}\n{invariants[k]}\n    decreases {v}\n{{ {v} -= 1; {body[bo + 1:bc]} }}"
+        body = body[:m.start()] + new + body[bc + 1:]
+        counts['R3'] = counts.get('R3', 0) + 1
+        k += 1
